@@ -6,6 +6,8 @@ test can depend on; see DESIGN.md section 2.4 for what is deliberately not model
 """
 from collections import deque
 
+from . import codec
+
 STORE_VERBS = (b"set", b"add", b"replace", b"append", b"prepend", b"cas")
 THIRTY_DAYS = 60 * 60 * 24 * 30
 _DIGITS = frozenset(b"0123456789")
@@ -67,6 +69,9 @@ class SimNode:
         self.cas_counter = 1000 * (nid + 1)
         self.flush_at = None
         self.item_max = opts.get("item_max", 1 << 20)
+        # keys for which `set` is answered NOT_STORED and nothing is stored ("the data was not stored, but not
+        # because of an error" - protocol.txt; what a proxy or a read-only replica in front of memcached does)
+        self.refuse_set = frozenset(codec.dec(k) for k in opts.get("refuse_set", ()))
         self.shutdown_enabled = opts.get("shutdown", False)
         self.version = opts.get("version", "1.6.%d" % (20 + nid)).encode()
         self.health = "up"           # or a down-kind string
@@ -465,8 +470,11 @@ class SimNode:
         it = self.lookup(key)
         exp = self._exp(exptime)
         if verb == b"set":
-            self.put(key, data, flags, exp)
-            r = b"STORED"
+            if key in self.refuse_set:
+                r = b"NOT_STORED"
+            else:
+                self.put(key, data, flags, exp)
+                r = b"STORED"
         elif verb == b"add":
             if it is None:
                 self.put(key, data, flags, exp)
